@@ -36,7 +36,7 @@ Lemma hv_write_cases h vt cs : hv_wf h -> vt_wf vt cs ->
   forall er, hv_write h vt cs = Err er -> er = EOverflow /\ ~ hv_base h + hv_cap h < W64.
 Proof.
   intros Hwf Hvt Hreq er Herr. split.
-  - pose proof Hwf as (Hb0 & Hb8 & Hlen & Hl8). pose proof Hvt as ((k & Hk & Ha) & Hs & Hcs).
+  - pose proof Hwf as (Hb0 & Hb8 & Hlen & Hl8 & Hcapok). pose proof Hvt as ((k & Hk & Ha) & Hs & Hcs).
     set (p := hv_base h + hv_len h).
     assert (Ep8 : p mod 8 = 0). { subst p. rewrite Zplus_mod, Hb8, Hl8. reflexivity. }
     pose proof (item_geometry p vt cs Hvt) as (G1 & G2 & G3 & G4).
@@ -80,13 +80,15 @@ Lemma expand_err q ents req nb er : fq_inv q ents -> base_ok nb -> 0 <= req ->
   expand_storage q req nb = Err er -> benign er /\ ~ expand_small q req nb.
 Proof.
   intros Hinv (Hnb0 & Hnb8) Hreq. unfold expand_storage, expand_small, SMALL.
-  pose proof (chain_inv_wf _ _ _ Hinv) as (Hb0 & Hb8 & Hlen & Hl8).
+  pose proof init_alloc_bounds as HI.
+  pose proof (chain_inv_wf _ _ _ Hinv) as (Hb0 & Hb8 & Hlen & Hl8 & Hcapok).
   destruct (hv_len (fq_cur q) =? 0) eqn:E0; cbn [negb].
   - apply Z.eqb_eq in E0. cbn [olift rbind].
     destruct (expand_size _ _) as [size|] eqn:Es; cbn [olift rbind].
     2:{ intros H. injection H as <-. split; [left; reflexivity|]. intros (S1 & S2 & S3).
         destruct (expand_size_total (hv_cap (fq_cur q)) req) as [s Hs]; [lia|lia|unfold W64; lia|congruence]. }
-    apply expand_size_some in Es; [|lia|lia]. destruct Es as (j & Hj & -> & Hc1 & Hc2 & Hc3 & _).
+    apply expand_size_some in Es; [|lia|lia]. destruct Es as (j & Hj & -> & Hia & Hc1 & Hc2 & Hc3 & _).
+    pose proof (pow2_pos j Hj) as Hjpos.
     destruct (hv_with_size _ _) as [new|] eqn:En; cbn [rbind].
     2:{ intros H. injection H as <-. apply hv_with_size_err in En. destruct En as [-> Hl].
         split; [right; reflexivity|]. unfold LAYOUT_MAX in Hl. lia. }
@@ -100,7 +102,8 @@ Proof.
     destruct (expand_size _ _) as [size|] eqn:Es; cbn [olift rbind].
     2:{ intros H. injection H as <-. split; [left; reflexivity|]. intros (S1 & S2 & S3).
         destruct (expand_size_total (hv_cap (fq_cur q)) (req + 32)) as [s Hs]; [lia|lia|unfold W64; lia|congruence]. }
-    apply expand_size_some in Es; [|lia|lia]. destruct Es as (j & Hj & -> & Hc1 & Hc2 & Hc3 & _).
+    apply expand_size_some in Es; [|lia|lia]. destruct Es as (j & Hj & -> & Hia & Hc1 & Hc2 & Hc3 & _).
+    pose proof (pow2_pos j Hj) as Hjpos.
     destruct (hv_with_size _ _) as [new|] eqn:En; cbn [rbind].
     2:{ intros H. injection H as <-. apply hv_with_size_err in En. destruct En as [-> Hl].
         split; [right; reflexivity|]. unfold LAYOUT_MAX in Hl. lia. }
@@ -111,7 +114,7 @@ Proof.
     replace (32 >? 2 ^ j - 0) with false by (symmetry; rewrite Z.gtb_ltb; apply Z.ltb_ge; lia).
     set (new := {| hv_base := nb; hv_len := 0; hv_cap := 2 ^ j; hv_mem := mem_empty |}).
     assert (Hwfn : hv_wf new).
-    { unfold hv_wf, new. cbn [hv_base hv_len hv_cap]. repeat split; try lia; auto. }
+    { unfold hv_wf, cap_ok, new. cbn [hv_base hv_len hv_cap]. repeat split; try lia; auto. right. eauto. }
     destruct (hv_write new chain_vt (chain_cells (fq_cur q))) as [new'|] eqn:Ew; cbn [rbind].
     2:{ intros H. injection H as <-.
         apply (hv_write_cases new _ _ Hwfn (enc_chain_wf _)) in Ew.
@@ -138,8 +141,9 @@ Lemma push_err q ents e nb er : fq_inv q ents -> entry_wf e -> base_ok nb ->
   fq_push q e nb = Err er -> benign er /\ ~ push_small q e nb.
 Proof.
   intros Hinv He Hnb. unfold fq_push, fq_push_raw, push_small, SMALL.
+  pose proof init_alloc_bounds as HI.
   pose proof He as (Hs & (k & Hk & Ha) & Hl).
-  pose proof (chain_inv_wf _ _ _ Hinv) as Hwf. pose proof Hwf as (Hb0 & Hb8 & Hlen & Hl8).
+  pose proof (chain_inv_wf _ _ _ Hinv) as Hwf. pose proof Hwf as (Hb0 & Hb8 & Hlen & Hl8 & Hcapok).
   pose proof (enc_user_wf e He) as Hvt.
   pose proof (req_spec_bounds (e_size e) (e_align e) Hs ltac:(rewrite Ha; apply pow2_pos; assumption)) as Hrb.
   cbn [user_vt vt_size vt_align].
@@ -156,7 +160,7 @@ Proof.
     2:{ intros H. injection H as <-.
         destruct (expand_err _ _ _ _ _ Hinv Hnb (proj1 Hrb) Ex) as [Hben Hsm]. split; [assumption|].
         intros (S1 & S2 & S3 & S4 & S5). apply Hsm. unfold expand_small, SMALL. lia. }
-    destruct (expand_spec _ _ _ _ _ Hinv Hnb (proj1 Hrb) Ex) as (Hinv1 & Hfit & Hbase & _ & _ & Hcapb).
+    destruct (expand_spec _ _ _ _ _ Hinv Hnb (proj1 Hrb) Ex) as (Hinv1 & Hfit & Hbase & _ & _ & _ & Hcapb).
     pose proof (chain_inv_wf _ _ _ Hinv1) as Hwf1. pose proof Hwf1 as (_ & _ & Hlen1 & _).
     unfold csub. replace (hv_len (fq_cur q1) <=? hv_cap (fq_cur q1)) with true by (symmetry; apply Z.leb_le; lia).
     cbn [olift rbind].
@@ -187,6 +191,7 @@ Proof.
   - exists q'. split; [reflexivity|]. split; [eapply push_spec; eassumption|].
     (* the buffer is either the old one or a fresh one of bounded size at nb *)
     revert E. unfold fq_push, fq_push_raw. destruct Hsm as (S1 & S2 & S3 & S4 & S5). unfold SMALL in *.
+    pose proof init_alloc_bounds as HI.
     pose proof He as (Hs & (k & Hk & Ha) & Hl).
     pose proof (req_spec_bounds (e_size e) (e_align e) Hs ltac:(rewrite Ha; apply pow2_pos; assumption)) as Hrb.
     pose proof (chain_inv_wf _ _ _ Hinv) as Hwf.
@@ -198,7 +203,7 @@ Proof.
     destruct (csub _ _) as [avail|]; cbn [olift rbind]; [|discriminate].
     destruct (_ >? avail).
     + destruct (expand_storage q _ nb) as [q1|] eqn:Ex; cbn [rbind]; [|discriminate].
-      destruct (expand_spec _ _ _ _ _ Hinv Hnb (proj1 Hrb) Ex) as (Hinv1 & Hfit & Hbase & _ & _ & Hcapb).
+      destruct (expand_spec _ _ _ _ _ Hinv Hnb (proj1 Hrb) Ex) as (Hinv1 & Hfit & Hbase & _ & _ & _ & Hcapb).
       destruct (csub _ _) as [avail1|]; cbn [olift rbind]; [|discriminate].
       destruct (_ >? avail1); [discriminate|]. cbn [rbind].
       destruct (hv_write _ _ _) as [h'|] eqn:Ew; cbn [rbind]; [|discriminate].
@@ -365,7 +370,7 @@ Theorem accesses_ok h items : hv_wf h ->
   (forall i j a n al a' n' al', (i < j)%nat ->
      nth_error acc i = Some (a, n, al) -> nth_error acc j = Some (a', n', al') -> a + n <= a').
 Proof.
-  intros (Hb0 & Hb8 & Hlen & Hl8) Hr acc.
+  intros (Hb0 & Hb8 & Hlen & Hl8 & Hcapok) Hr acc.
   pose proof (accesses_ordered _ _ _ _ Hr) as Ho. fold acc in Ho.
   split; [|intros; eapply ordered_disjoint; eassumption].
   (* alignment of each access *)
